@@ -1474,7 +1474,7 @@ Lemma boot_spec e c s s' :
   Good s' /\ cnt0 s' = cnt0 s /\ tb s' = tb s /\ now s <= now s' /\ (exists add, outs s' = add ++ outs s) /\
   (forall y, In y (slots s') -> active y = true -> now s <= g_t0 y).
 Proof.
-  intros Es' W TO C0 Ct N. unfold boot in Es'.
+  intros Es' W TO C0 Ct N. unfold boot, boot_l in Es'.
   remember (t_arm TUP UPTIME_POLL_MS true (set_upc 0 (set_upl 0 (set_seqc 0 (set_li 0 (set_tcd tmr0 (set_tsv tmr0 (set_tup tmr0 s)))))))) as s1 eqn:Es1.
   remember (set_ram_relay (fl_relay s1) (set_ram_t2 (fl_t2 s1) s1)) as s2 eqn:Es2.
   remember (set_slots (repeat slot_free 8) (set_delay 0 s2)) as s3 eqn:Es3.
@@ -2136,7 +2136,7 @@ Lemma boot_J e S c s s' :
   s' = boot e c s -> wf_cfg c -> TrO s -> 0 <= cnt0 s -> tb s <= now s -> OTO e S (outs s) -> NW s' -> Slack S (outs s') -> 0 <= S ->
   J e S s' /\ (exists add, outs s' = add ++ outs s /\ forall tcb ch tg t0 dur u0 u, In (GFinish tcb ch tg t0 dur u0 u) add -> now s <= t0).
 Proof.
-  intros Es' W TO C0 Ct OT N SL HS. unfold boot in Es'.
+  intros Es' W TO C0 Ct OT N SL HS. unfold boot, boot_l in Es'.
   remember (t_arm TUP UPTIME_POLL_MS true (set_upc 0 (set_upl 0 (set_seqc 0 (set_li 0 (set_tcd tmr0 (set_tsv tmr0 (set_tup tmr0 s)))))))) as s1 eqn:Es1.
   remember (set_ram_relay (fl_relay s1) (set_ram_t2 (fl_t2 s1) s1)) as s2 eqn:Es2.
   remember (set_slots (repeat slot_free 8) (set_delay 0 s2)) as s3 eqn:Es3.
@@ -2193,7 +2193,7 @@ Qed.
 
 Lemma boot_outs e c s : exists add, outs (boot e c s) = add ++ outs s.
 Proof.
-  unfold boot.
+  unfold boot, boot_l.
   set (s5 := set_obuf [] _).
   set (s6 := fold_left (restore_relay e c) (enum 0 (c_relays c)) s5).
   destruct (fold_restore_frame e c (enum 0 (c_relays c)) s5) as [_ _ _ (a & E)]. fold s6 in E.
